@@ -305,7 +305,7 @@ pub fn gen_model(seed: u64, size: u32) -> Model<'static> {
             }
             match kind {
                 0 | 1 => {
-                    let v = *r.pick(&["1", "2.5", "-3", "1e10", "0.1", "123456789.123", "50%", "2020-02-29", "TRUE"]);
+                    let v = *r.pick(&["1", "2.5", "-3", "1e10", "0.1", "123456789.123", "50%", "2020-02-29", "TRUE", "FALSE", "#N/A", "#DIV/0!", "#VALUE!"]);
                     let _ = m.set_user_input(sheet, row, col, v.to_string());
                 }
                 2 | 3 => {
@@ -335,6 +335,14 @@ pub fn gen_model(seed: u64, size: u32) -> Model<'static> {
                 }
             }
             if r.chance(1, 3) {
+                let st = gen_style(&mut r);
+                let _ = m.set_cell_style(sheet, row, col, &st);
+            }
+        }
+        // style-only (empty) cells
+        for _ in 0..r.below(3) {
+            let (row, col) = (1 + r.below(8) as i32, 1 + r.below(3) as i32);
+            if used.insert((row, col)) {
                 let st = gen_style(&mut r);
                 let _ = m.set_cell_style(sheet, row, col, &st);
             }
